@@ -31,10 +31,31 @@ let () =
   register "gio_read" (function [hd; t; f; txt] ->
       of_res of_graph (gio_read_graph (to_bool hd) (gtype_of (to_str t)) (fmt_of (to_str f)) (to_chars txt))
                                | _ -> raise (Bad "arity"));
+  (* the readers as found, before the repairs of D6, D7, D8 *)
+  register "gio_read_as_found" (function [hd; t; f; txt] ->
+      of_res of_graph (gio_read_graph_as_found (to_bool hd) (gtype_of (to_str t)) (fmt_of (to_str f)) (to_chars txt))
+                               | _ -> raise (Bad "arity"));
   register "gio_write" (function [hd; t; f; g] ->
       of_res of_chars (gio_write_graph (to_bool hd) (gtype_of (to_str t)) (fmt_of (to_str f)) (to_graph g))
                                 | _ -> raise (Bad "arity"));
   register "gio_dot" (function [g] -> of_opt (of_res of_graph) (gio_dot_roundtrip (to_graph g)) | _ -> raise (Bad "arity"));
+  register "gio_dot_as_found" (function [g] -> of_opt (of_res of_graph) (gio_dot_roundtrip_as_found (to_graph g)) | _ -> raise (Bad "arity"));
+  (* cnfgen's step after read_dot on arbitrary labels: kind name nodes edges *)
+  register "gio_dot_norm" (function [k; nm; nodes; edges] ->
+      of_opt (of_res of_graph)
+        (gio_dot_normalize (kind_of (to_str k)) (to_chars nm) (to_list to_chars nodes)
+           (to_list (to_pair to_chars to_chars) edges))
+                                   | _ -> raise (Bad "arity"));
+  register "gio_dot_norm_as_found" (function [k; nm; nodes; edges] ->
+      of_opt (of_res of_graph)
+        (gio_dot_normalize_as_found (kind_of (to_str k)) (to_chars nm) (to_list to_chars nodes)
+           (to_list (to_pair to_chars to_chars) edges))
+                                   | _ -> raise (Bad "arity"));
+  register "gio_dot_bip_norm" (function [nm; nodes; edges] ->
+      of_opt (of_res of_graph)
+        (gio_dot_bip_normalize (to_chars nm) (to_list (to_pair to_chars to_z) nodes)
+           (to_list (to_pair to_chars to_chars) edges))
+                                       | _ -> raise (Bad "arity"));
   register "gio_gml" (function [g] -> of_opt (of_res of_graph) (gio_gml_roundtrip (to_graph g)) | _ -> raise (Bad "arity"));
   (* from_networkx on string labels: kind name nodes edges *)
   register "gio_from_nx_str" (function [k; nm; nodes; edges] ->
@@ -46,6 +67,17 @@ let () =
       of_res of_graph
         (gio_bip_from_nx gt_str_eqb (to_chars nm) (to_list (to_pair to_chars to_z) nodes)
            (to_list (to_pair to_chars to_chars) edges))
+                                          | _ -> raise (Bad "arity"));
+  (* from_networkx on integer labels (gml ids): kind name nodes edges *)
+  register "gio_from_nx_int" (function [k; nm; nodes; edges] ->
+      of_opt (of_res of_graph)
+        (gio_from_nx Z.ltb Z.eqb (kind_of (to_str k)) (to_chars nm) (to_list to_z nodes)
+           (to_list (to_pair to_z to_z) edges))
+                                      | _ -> raise (Bad "arity"));
+  register "gio_bip_from_nx_int" (function [nm; nodes; edges] ->
+      of_res of_graph
+        (gio_bip_from_nx Z.eqb (to_chars nm) (to_list (to_pair to_z to_z) nodes)
+           (to_list (to_pair to_z to_z) edges))
                                           | _ -> raise (Bad "arity"));
   (* primitives *)
   register "gt_int" (function [s] -> of_opt of_z (gt_int (to_chars s)) | _ -> raise (Bad "arity"));
